@@ -5,6 +5,6 @@ cd "$(dirname "$0")/.." || exit 2
 OUT=detection_matrix.txt
 { echo "# mutants (vlib/mutants/mutants.json)"; tools/selftest.py 2>&1 | grep -E "CAUGHT|MISSED|HARNESS|ANCHOR|APPLY" | cut -c1-160
   echo "# seeded changes (seeded/*/patch.diff)"
-  for d in seeded/*/; do n=$(basename $d); p=${n:0:3}; tools/selftest.py --patch $d/patch.diff -p $p 2>&1 | grep -E "CAUGHT|MISSED|HARNESS|APPLY" | sed "s/^SEED */$n /; s/^$n */$n /" | cut -c1-160; done
+  for d in seeded/*/; do n=$(basename $d); p=${n:0:3}; f=$d/patch.diff; r=$(ls $d/patch_rebased_on_*.diff 2>/dev/null | tail -1); [ -n "$r" ] && f=$r; tools/selftest.py --patch $f -p $p 2>&1 | grep -E "CAUGHT|MISSED|HARNESS|APPLY" | sed "s/^SEED */$n /; s/^$n */$n /" | cut -c1-160; done
 } > $OUT 2>&1
 grep -c CAUGHT $OUT; grep -E "MISSED|HARNESS|ANCHOR|APPLY" $OUT
